@@ -36,7 +36,7 @@ def do_post(p, x):
         return int(n)
     if p == "asHash":
         h = int(x)
-        if abs(h) >= 2 ** 61 - 1:
+        if not -2 ** 63 <= h < 2 ** 63:
             h = hash(h)
         return -2 if h == -1 else h
     if p == "lenNonzero":
@@ -177,10 +177,12 @@ def call_slot(cls, dunder, *args):
 PLACE_CODE = {"proxy-left": "L", "proxy-right": "R", "both": "B", "none": "N", "proxy": "P"}
 
 
-def request(case, placement=None):
-    """-> (line, table) ; placement overrides the case's (use 'none' for the protocol-only request)"""
+def request(case, placement=None, raw=None):
+    """-> (line, table) ; placement overrides the case's (use 'none' for the protocol-only request);
+    raw: the operand objects to tabulate on (identity matters for hash/is), default freshly built"""
     fam, op = case["family"], case["op"]
-    env, raw, _ = pc.case_operands(case)
+    if raw is None:
+        _, raw, _ = pc.case_operands(case)
     T = Table()
     for i, v in enumerate(raw[:2] if fam != "isinstance" else raw[:1]):
         got = T.intern(v)
